@@ -194,6 +194,7 @@ func streamDrv(c *ctx) {
 		l, o := drvCase(c, r, path, freePort(), genArrivalSeq(r), "none", i%3 == 2)
 		c.w.Emit(l, o, "path/"+path, "bind/fixed", "outcome/"+strings.SplitN(o, " ", 2)[0])
 	}
+	slowConnect(c)
 	c.w.Notes = append(c.w.Notes, fmt.Sprintf("drv stream: GetCardByID through the real ut0311 driver (timeout %v) against scripted loopback responders on the three paths; arrival sequences of 0..3 datagrams over valid/short/long/wrong-serial/serial-0/wrong-code/wrong-som/malformed, each either early (< 0.45 T) or late (> 1.8 T); TCP accept-and-stall, reset, refused; UDP refused (ICMP); bind port 0 (16 in parallel) and fixed; outcome, time class (<T, =T within %v, >T) and number of requests the responder saw", T, slack))
 }
 
@@ -366,4 +367,74 @@ func streamLeak(c *ctx) {
 	_ = net.IPv4zero
 	_ = cases.Hex
 	c.w.Notes = append(c.w.Notes, "leak stream: socket descriptors (/proc/self/fd) and goroutines before and after batches of 12 calls over all paths with silence / late / stray / refused / stalled behaviours plus two discoveries, one listen start/stop cycle and three listens that fail because the port is taken")
+}
+
+
+// slowConnect: a TCP controller whose handshake is slow - its accept queue (listen backlog 0) is full when the first
+// SYN arrives, the kernel drops it and the client's retransmission a second later gets through once the queue has been
+// drained - and which then never answers. The time spent connecting is part of the one timeout: the call must fail one
+// timeout after it was made, not one timeout after the connection came up. (Linux: raw listen() with backlog 0.)
+func slowConnect(c *ctx) {
+	const timeout = 2500 * time.Millisecond
+	fd, err := syscall.Socket(syscall.AF_INET, syscall.SOCK_STREAM, 0)
+	if err != nil {
+		return
+	}
+	defer func() { syscall.Shutdown(fd, syscall.SHUT_RDWR); syscall.Close(fd) }()
+	if syscall.Bind(fd, &syscall.SockaddrInet4{Addr: [4]byte{127, 0, 0, 1}}) != nil || syscall.Listen(fd, 0) != nil {
+		return
+	}
+	sa, err := syscall.Getsockname(fd)
+	if err != nil {
+		return
+	}
+	port := sa.(*syscall.SockaddrInet4).Port
+	address := fmt.Sprintf("127.0.0.1:%d", port)
+	filler, err := net.DialTimeout("tcp4", address, time.Second)
+	if err != nil {
+		return
+	}
+	defer filler.Close()
+	// the rig works only if a further connection attempt does not get through while the queue is full
+	if probe, err := net.DialTimeout("tcp4", address, 300*time.Millisecond); err == nil {
+		probe.Close()
+		c.w.Notes = append(c.w.Notes, "slow-connect: the accept queue did not fill up on this system: scenario skipped")
+		return
+	}
+	held := make(chan int, 4)
+	go func() {
+		time.Sleep(400 * time.Millisecond)
+		for i := 0; i < 2; i++ { // the filler, then the library's connection (blocks until its handshake completes)
+			if nfd, _, err := syscall.Accept(fd); err == nil {
+				held <- nfd
+			}
+		}
+	}()
+	ap := netip.MustParseAddrPort(address)
+	u := uhppote.NewUHPPOTE(types.BindAddrFrom(netip.MustParseAddr("127.0.0.1"), 0), types.BroadcastAddr{}, types.ListenAddrFrom(netip.MustParseAddr("127.0.0.1"), 60001), timeout,
+		[]uhppote.Device{{DeviceID: 1000009, Address: types.ControllerAddrFrom(ap.Addr(), ap.Port()), Protocol: "tcp"}}, false)
+	t0 := time.Now()
+	done := make(chan error, 1)
+	go func() { _, err := u.GetCardByID(1000009, 1); done <- err }()
+	out := "hung"
+	select {
+	case err := <-done:
+		out = "ok"
+		if err != nil {
+			out = "err"
+		}
+	case <-time.After(4 * timeout):
+	}
+	el := time.Since(t0)
+	class := "=T"
+	switch {
+	case el < timeout-150*time.Millisecond:
+		class = "<T"
+	case el > timeout+600*time.Millisecond:
+		class = ">T"
+	}
+	for len(held) > 0 {
+		syscall.Close(<-held)
+	}
+	c.w.Emit(fmt.Sprintf("slow-connect tcp T=%d connect=1000", timeout.Milliseconds()), out+" "+class, "slow-connect")
 }
